@@ -27,6 +27,20 @@ def _os_calls(fn_node, names, exclude_self_methods=True):
     return out
 
 
+def _precedes(fn, a, b):
+    """does statement a come before statement b in the (normalised) body of fn? (line numbers of inlined code are those of the
+    helper it came from and say nothing about order)"""
+    order = {id(x): i for i, x in enumerate(_preorder(fn))}
+    return order.get(id(a), 10 ** 9) < order.get(id(b), -1)
+
+
+def _preorder(node):
+    yield node
+    for c in ast.iter_child_nodes(node):
+        for x in _preorder(c):
+            yield x
+
+
 def check_read(ctx, rep, cls_qual):
     short = cls_qual.split(".")[-1]
     f = ctx.func(cls_qual + ".read")
@@ -46,7 +60,7 @@ def check_read(ctx, rep, cls_qual):
         inits = [n for n in A.walk(fn) if isinstance(n, ast.Assign) and any(
             isinstance(x, ast.Name) and x.id == tv.id for x in n.targets) and not A.contains(loop, n)]
         if len(inits) == 1 and isinstance(inits[0].value, ast.Name) and inits[0].value.id == cnt and \
-                inits[0].lineno < loop.lineno and not any(
+                _precedes(fn, inits[0], loop) and not any(
                     isinstance(n, (ast.Assign, ast.AugAssign)) and cnt in A.names_stored(n) for n in A.walk(fn)):
             cnt = tv.id
     okt = isinstance(t, ast.Compare) and isinstance(t.left, ast.Name) and t.left.id == cnt and len(t.ops) == 1 and (
@@ -535,6 +549,22 @@ def channel_send_paths(ctx):
                     new += block(st.orelse, [(guards + [(tst, not pos)], writes, env, False)])
                 elif isinstance(st, ast.Return) and (st.value is None or isinstance(st.value, ast.Constant) and st.value.value is None):
                     new.append((guards, writes, env, True))
+                elif isinstance(st, ast.For) and not st.orelse and isinstance(st.target, ast.Name) and \
+                        isinstance(_sub(st.iter, env), (ast.Tuple, ast.List)) and \
+                        not any(isinstance(x, (ast.Break, ast.Continue)) for b_ in st.body for x in ast.walk(b_)):
+                    # a loop over a display of chunks built on this path: one iteration per element, in order
+                    sts_ = [(guards, writes, env, False)]
+                    for el_ in _sub(st.iter, env).elts:
+                        nxt_ = []
+                        for g_, w_, e_, d_ in sts_:
+                            if d_:
+                                nxt_.append((g_, w_, e_, d_))
+                                continue
+                            e2 = dict(e_)
+                            e2[st.target.id] = el_
+                            nxt_ += block(st.body, [(g_, w_, e2, False)])
+                        sts_ = nxt_
+                    new += sts_
                 elif isinstance(st, ast.Expr) and isinstance(st.value, ast.Call) and \
                         A.call_name(_sub(st.value, env)) in ("self.stream.write",) and len(st.value.args) == 1:
                     new.append((guards, writes + [(_sub(st.value.args[0], env), st)], env, done))
